@@ -118,6 +118,8 @@ def nestChain (j : Json) : Except String Json := do
   let mut curE := S1.exts
   let mut ranks : List (List String) := tensors.map (·.ranks)
   let mut full : List (List String) := tensors.map (·.ranks)
+  let mut outRen : List String := S.outRanks
+  let mut outSplit : List String := S.outRanks
   let mut lvls : List C03.DynLevel := []
   let mut allPre : List String := []
   let mut allPreE : List Nat := []
@@ -141,6 +143,8 @@ def nestChain (j : Json) : Except String Json := do
     lvls := lvls ++ [{ preN := preN, preE := preE, D := D }]
     ranks := ranks.map fun aR => splitRanks K K1 K0 (concord rsU aR)
     full := full.map (splitRanks K K1 K0)
+    outRen := renameRanks K K0 outRen
+    outSplit := splitRanks K K1 K0 outSplit
     allPre := allPre ++ preN
     allPreE := allPreE ++ preE
     curN := rs'
@@ -149,8 +153,9 @@ def nestChain (j : Json) : Except String Json := do
   let finalTerms : List TermS := match S1.terms with
     | [t] => [{ t with tensors := (t.tensors.zip full).map fun (x, rk) => { x with ranks := rk } }]
     | ts => ts
-  let S' : EinsumS := { S1 with loop := allPre ++ curN, exts := allPreE ++ curE, terms := finalTerms, outRanks := S.outRanks }
+  let S' : EinsumS := { S1 with loop := allPre ++ curN, exts := allPreE ++ curE, terms := finalTerms, outRanks := outRen }
   let r := collect S' contribs
+  let S' : EinsumS := { S' with outRanks := outSplit }
   let m := collect S (spec (levels S) (initTerms S env))
   let hyps := decide (C03.StatChainHyps S env sps L1 lvls σ0)
   let base := [("run", jPts r), ("spec", jPts m), ("expected_loops", jLoops (expectedLoops S')), ("hyps_ok", Json.bool hyps)]
